@@ -303,6 +303,7 @@ def check(tree, rep, tier='quick', seed=0):
     from ..core import get_core
     from .. import corerules as R
     R.k23f_filling_keeps_no_state(get_core(tree), rep)
+    R.k23g_box_value_set_in_every_round(get_core(tree), rep)
     rep.floor('mappings checked', n_map, 1500)
     rep.floor('templates parsed', n_tpl, 36)
     rep.floor('mappings with a template label', n_label, 1000)
